@@ -15,7 +15,7 @@ from .ops import truth, b_and, b_not
 from .values import (EngineError, NONE, ListV, SeqV, OptV, ObjV, MapV, SetV, StrV, ExcV, fresh, shape_of,
                      is_z3, to_int_term, TSeq, shape_leaves, TInt, TConst)
 
-QUICK_TIMEOUT_MS = 20000
+QUICK_TIMEOUT_MS = 30000
 THOROUGH_TIMEOUT_MS = 120000
 
 
@@ -129,7 +129,7 @@ def check_formula(pc, goal, timeout_ms, want_model=True, tier="quick"):
     if r == z3.sat:
         return "refuted", s.model(), "z3", dt
     # second opinion: cvc5 on the same query text (quantified obligations z3 gives up on are often immediate for it)
-    st2, dt2 = run_cvc5(s.to_smt2(), min(timeout_ms, 10000))
+    st2, dt2 = run_cvc5(s.to_smt2(), min(timeout_ms, 30000))
     if st2 == "unsat":
         return "proved", None, "cvc5", dt + dt2
     if timeout_ms > first:
